@@ -43,7 +43,24 @@ CYCLES = [".equ a = %s\n.equ b = %s\n%s" % (x, y, use)
           for x in ("b", "low(b)", "b + 1", "-b", "~b", "(b)", "1 + high(b * 2)", "b == 1", "!b")
           for y in ("a", "a + 1", "low(a)", "exp2(a)", "-a")
           for use in ("ldi r16, a", ".dw a", ".if a\n.endif", ".org a", ".set s = a", ".dw low(a)", "rjmp a", "lds r16, b")]
-STRUCTURAL = CYCLES + [".equ a = low(a)\n.dw a", ".equ a = a * 2\n.if a\n.endif", ".set s = 1\n.set s = low(s2)\n.equ s2 = s2\n",
+def _clashes():
+    """every ordered pair of ways to bind one name (label, .equ, .set, .def, .define, macro, the special pc), then a use"""
+    bind = {"label": "nm: nop", "equ": ".equ nm = 1", "set": ".set nm = 2", "def": ".def nm = r16", "define": ".define nm", "macro": ".macro nm\n nop\n.endm"}
+    out = []
+    for a, ta in bind.items():
+        for b, tb in bind.items():
+            for use in ("", " ldi r17, nm", " mov nm, r1", " .dw nm", " nm"):
+                out.append("%s\n%s\n%s" % (ta, tb, use))
+    for t in bind.values():
+        out.append(t.replace("nm", "pc"))
+        out.append(t.replace("nm", "PC") + "\n .dw pc")
+        out.append(t.replace("nm", "r16") + "\n mov r16, r1")
+        out.append(t.replace("nm", "low") + "\n .dw low(1)")
+    out += [".dseg\nv: .byte 1\n.set v = 3\n.cseg\n .dw v", ".eseg\ne: .db 1\n.set e = 3", ".set s = 1\ns: nop", ".def d = r1\nd: nop", ".undef pc", ".undef nolabel\nnolabel: nop"]
+    return out
+
+
+STRUCTURAL = CYCLES + _clashes() + [".equ a = low(a)\n.dw a", ".equ a = a * 2\n.if a\n.endif", ".set s = 1\n.set s = low(s2)\n.equ s2 = s2\n",
     ".macro a\nb @0\n.endm\n.macro b\na @0\n.endm\na 1", ".macro a\n.if 1\na\n.endif\n.endm\na", ".macro a\n.dseg\n.cseg\na\n.endm\na",
     ".equ x = y\n.equ y = x\n.dw x", ".equ x = x\n.dw x", ".equ x = x + 1\nldi r16, x", ".set s = s\n", ".macro m\nm\n.endm\nm",
     ".macro a\nb\n.endm\n.macro b\na\n.endm\na", ".macro m\n.macro n\n.endm\nm", ".macro m\n.include \"x\"\n.endm\nm", ".macro m\n.includepath \"x\"\n.endm\nm", ".includepath \"x\"\n.includepath \"/\"\n.includepath \"\"\n",
